@@ -280,7 +280,10 @@ package tacquito
 //@               min(argLens[j], len(data) - min(len(data), 8 + argCnt + userLen + portLen + remAddrLen + sumInts(argLens, j))))
 //@   loop 2 invariant[case2] forall j int :: 0 <= j && j <= rangeindex ==>
 //@        window(a.Args[j], data, 8 + len(f.Args) + len(f.User) + len(f.Port) + len(f.RemAddr) + sumLen(f.Args, j), len(f.Args[j]))
+//@   loop 2 invariant[case2] buf == data[8 + len(f.Args) + len(f.User) + len(f.Port) + len(f.RemAddr) + sumLen(f.Args, rangeindex + 1):]
+//@   loop 2 invariant[case2] forall j int :: {f.Args[j]} 0 <= j && j < len(f.Args) ==> 8 + len(f.Args) + len(f.User) + len(f.Port) + len(f.RemAddr) + sumLen(f.Args, j) + len(f.Args[j]) <= len(data)
 //@   loop 2 invariant[case2] sumLen(a.Args, rangeindex + 1) == sumLen(f.Args, rangeindex + 1)
+//@   loop 2 invariant[case2] forall j int, i int :: 0 <= j && j <= rangeindex && 0 <= i && i < len(f.Args[j]) ==> a.Args[j][i] == f.Args[j][i]
 
 //@ func (a *AuthorReply) Validate() (err error)
 //@   requires a != nil
@@ -343,7 +346,10 @@ package tacquito
 //@               min(argLens[j], len(data) - min(len(data), 6 + argCnt + serverMsgLen + dataLen + sumInts(argLens, j))))
 //@   loop 2 invariant[case2] forall j int :: 0 <= j && j <= rangeindex ==>
 //@        window(a.Args[j], data, 6 + len(f.Args) + len(f.ServerMsg) + len(f.Data) + sumLen(f.Args, j), len(f.Args[j]))
+//@   loop 2 invariant[case2] buf == data[6 + len(f.Args) + len(f.ServerMsg) + len(f.Data) + sumLen(f.Args, rangeindex + 1):]
+//@   loop 2 invariant[case2] forall j int :: {f.Args[j]} 0 <= j && j < len(f.Args) ==> 6 + len(f.Args) + len(f.ServerMsg) + len(f.Data) + sumLen(f.Args, j) + len(f.Args[j]) <= len(data)
 //@   loop 2 invariant[case2] sumLen(a.Args, rangeindex + 1) == sumLen(f.Args, rangeindex + 1)
+//@   loop 2 invariant[case2] forall j int, i int :: 0 <= j && j <= rangeindex && 0 <= i && i < len(f.Args[j]) ==> a.Args[j][i] == f.Args[j][i]
 
 // ---------------------------------------------------------------------------
 // accounting.go (request)
@@ -410,4 +416,7 @@ package tacquito
 //@               min(argLens[j], len(data) - min(len(data), 9 + argCnt + userLen + portLen + remAddrLen + sumInts(argLens, j))))
 //@   loop 2 invariant[case2] forall j int :: 0 <= j && j <= rangeindex ==>
 //@        window(a.Args[j], data, 9 + len(f.Args) + len(f.User) + len(f.Port) + len(f.RemAddr) + sumLen(f.Args, j), len(f.Args[j]))
+//@   loop 2 invariant[case2] buf == data[9 + len(f.Args) + len(f.User) + len(f.Port) + len(f.RemAddr) + sumLen(f.Args, rangeindex + 1):]
+//@   loop 2 invariant[case2] forall j int :: {f.Args[j]} 0 <= j && j < len(f.Args) ==> 9 + len(f.Args) + len(f.User) + len(f.Port) + len(f.RemAddr) + sumLen(f.Args, j) + len(f.Args[j]) <= len(data)
 //@   loop 2 invariant[case2] sumLen(a.Args, rangeindex + 1) == sumLen(f.Args, rangeindex + 1)
+//@   loop 2 invariant[case2] forall j int, i int :: 0 <= j && j <= rangeindex && 0 <= i && i < len(f.Args[j]) ==> a.Args[j][i] == f.Args[j][i]
